@@ -249,13 +249,16 @@ func scThrow(r *h.Rng) *prog {
 	return p
 }
 
-var fnScenarios = []struct {
+type fnScenario struct {
 	name string
 	f    func(*h.Rng) *prog
-}{{"closures", scClosures}, {"this", scThis}, {"new", scNew}, {"arguments", scArguments}, {"hoist", scHoist}, {"eval", scEval}, {"named", scNamed}, {"throw", scThrow}}
+}
+
+// (fngen_scope.go appends the with / for-in / label scenarios)
+var fnScenarios = []fnScenario{{"closures", scClosures}, {"this", scThis}, {"new", scNew}, {"arguments", scArguments}, {"hoist", scHoist}, {"eval", scEval}, {"named", scNamed}, {"throw", scThrow}}
 
 func genFn(c *h.Ctx) {
-	n := c.N(2500, 100000)
+	n := c.N(7500, 250000)
 	for i := 0; i < n; i++ {
 		sc := fnScenarios[c.Rng.Intn(len(fnScenarios))]
 		r := c.Rng.Fork()
